@@ -265,7 +265,8 @@ operations on the underlying pairs, `lift_x` answering inside the `n`-torsion). 
 `subEnv K D` ARE their runs over `ecEnv C D`; what a public derivation answers over `subEnv K D` it answers over
 `ecEnv C D`.  T3 is given as the full equation over `subEnv K D` and, in its success case, about `Btc.EC.ops C` alone.
 (T2 `deriveFold_compose` and T5 `crack_recovers_parent` never had a `Lawful` hypothesis: they already apply to
-`secpEnv`.)  For secp256k1 the only hypotheses are the primality of `p` and of `n`. -/
+`secpEnv`.)  For secp256k1 nothing is assumed about the curve (primality of `p`, `n`: Pratt certificates,
+`Btc.E2E.secp256k1_p_prime`, `secp256k1_n_prime`). -/
 namespace Props.C07
 open Btc Btc.EC Btc.C01 Btc.E2E Btc.Bip32
 
@@ -308,31 +309,31 @@ theorem crack_recovers_parent_ec (C : Curve) (D : EnvData) (B : Bounds (ecEnv C 
     crackCore (ecEnv C D) { x with version := v, key := pubOfPrv (ecEnv C D) x.prvInt } y = .ok x :=
   Btc.E2E.crack_recovers_parent_ec C D B x y v i hv hi hc
 
-/-- T3 on secp256k1 (the driver's `secpEnv mac`), full equation over `secpSubEnv`: ONLY primality assumed -/
-theorem neuter_derive_secp256k1 (hp : Nat.Prime secp256k1_p) (hn : Nat.Prime secp256k1_n)
+/-- T3 on secp256k1 (the driver's `secpEnv mac`), full equation over `secpSubEnv`: no curve hypothesis -/
+theorem neuter_derive_secp256k1
     (mac : Bytes → Bytes → Bytes) (x : XKey) (v : Bytes) (path : List ℕ)
     (hv : ValidPrv (secpEnv mac) x) (hver : Gen.Bip32.pubVersion x.version = some v)
     (hpath : ∀ i ∈ path, i < HARDENED) :
-    ((deriveFold (secpSubEnv hp hn mac) x path).mapError Err.toPub).bind (neuter (secpSubEnv hp hn mac)) =
-      (neuter (secpSubEnv hp hn mac) x).bind fun x' => deriveFold (secpSubEnv hp hn mac) x' path :=
-  Btc.E2E.neuter_derive_secp256k1 hp hn mac x v path hv hver hpath
+    ((deriveFold (secpSubEnv mac) x path).mapError Err.toPub).bind (neuter (secpSubEnv mac)) =
+      (neuter (secpSubEnv mac) x).bind fun x' => deriveFold (secpSubEnv mac) x' path :=
+  Btc.E2E.neuter_derive_secp256k1 mac x v path hv hver hpath
 
 /-- T3 on secp256k1, success case, about the driver's `secpEnv mac` itself -/
-theorem neuter_derive_raw_secp256k1 (hp : Nat.Prime secp256k1_p) (hn : Nat.Prime secp256k1_n)
+theorem neuter_derive_raw_secp256k1
     (mac : Bytes → Bytes → Bytes) (x : XKey) (v : Bytes) (path : List ℕ)
     (hv : ValidPrv (secpEnv mac) x) (hver : Gen.Bip32.pubVersion x.version = some v)
     (hpath : ∀ i ∈ path, i < HARDENED)
     (y' : XKey) (hy : (deriveFold (secpEnv mac) x path).bind (neuter (secpEnv mac)) = .ok y') :
     neuter (secpEnv mac) x = .ok { x with version := v, key := pubOfPrv (secpEnv mac) x.prvInt } ∧
     deriveFold (secpEnv mac) { x with version := v, key := pubOfPrv (secpEnv mac) x.prvInt } path = .ok y' :=
-  Btc.E2E.neuter_derive_raw_secp256k1 hp hn mac x v path hv hver hpath y' hy
+  Btc.E2E.neuter_derive_raw_secp256k1 mac x v path hv hver hpath y' hy
 
 /-- T1 on secp256k1 -/
-theorem deriveB_eq_fold_secp256k1 (hp : Nat.Prime secp256k1_p) (hn : Nat.Prime secp256k1_n)
+theorem deriveB_eq_fold_secp256k1
     (mac : Bytes → Bytes → Bytes) (x : XKey) (path : List ℕ)
     (hk : x.isPrivate = true ∨ ∀ i ∈ path, i < HARDENED) (hd : x.depth + path.length ≤ MAX_DEPTH) :
-    deriveB (secpSubEnv hp hn mac) x path none = deriveFold (secpSubEnv hp hn mac) x path :=
-  Btc.E2E.deriveB_eq_fold_secp256k1 hp hn mac x path hk hd
+    deriveB (secpSubEnv mac) x path none = deriveFold (secpSubEnv mac) x path :=
+  Btc.E2E.deriveB_eq_fold_secp256k1 mac x path hk hd
 
 -- non-vacuity on `y² = x³ + 7` over `F₄₃` (`CurveOk` PROVED, nothing assumed): an actual private derivation along
 -- `0/7` followed by neutering, and what T3 then says of the public derivation of the neutered parent
